@@ -159,6 +159,9 @@ struct Env {
         }
         void obs_bytes(uint32_t tag, const void *p, size_t n) { obs(tag, hash_bytes(p, n)); }
         void ev(uint64_t v) { res->ev.add(v); } // schedule-level event (not an observable)
+        // "recycled object" fault: overwrite a plan-chosen subset of the 64-byte chunks of an object with hidden-stream bytes (the memory
+        // was used for something else between two lives of the object). Which chunks: from 'salt' (plan); what bytes: hidden stream.
+        void recycle_corrupt(uint8_t *obj, size_t n, uint64_t salt);
         void check_mem_all(const char *when);
         void check_buf(const void *p, const char *entry);
 };
